@@ -318,33 +318,27 @@ pub fn make_module() -> KMap {
                     let l = l.clone();
                     let value = value.clone();
 
-                    let mut error = None;
-                    l.data_mut().retain(|x| {
-                        if error.is_some() {
-                            return true;
-                        }
+                    // The comparisons are made before the list is borrowed mutably:
+                    // an element can be the list itself, and an overridden `==` can access it.
+                    let entries = l.data().clone();
+                    let mut retained = ValueVec::with_capacity(entries.len());
+                    for x in entries {
                         match ctx
                             .vm
                             .run_binary_op(BinaryOp::Equal, x.clone(), value.clone())
                         {
-                            Ok(KValue::Bool(true)) => true,
-                            Ok(KValue::Bool(false)) => false,
+                            Ok(KValue::Bool(true)) => retained.push(x),
+                            Ok(KValue::Bool(false)) => {}
                             Ok(unexpected) => {
-                                error = Some(unexpected_type(
+                                return unexpected_type(
                                     "a Bool from the equality comparison",
                                     &unexpected,
-                                ));
-                                true
+                                );
                             }
-                            Err(e) => {
-                                error = Some(Err(e));
-                                true
-                            }
+                            Err(e) => return Err(e),
                         }
-                    });
-                    if let Some(error) = error {
-                        return error;
                     }
+                    *l.data_mut() = retained;
                     l
                 }
                 (instance, args) => {
